@@ -31,6 +31,9 @@ def cases(chk):
         T = rng.choice([1, 2, 3, 4])
         cs.append({"kind": "empirical", "obs": [[rng.randrange(4) for _ in range(T)] for _ in range(rng.randrange(1, 200))],
                    "sizes": [2, 3, 4, 5][:T]})
+        # the same loader object held another sequence before (public property + create_jdd)
+        cs.append({"kind": "empirical", "obs": [[rng.randrange(3) for _ in range(T)] for _ in range(rng.randrange(1, 12))],
+                   "pre_obs": [[rng.randrange(4) for _ in range(T)] for _ in range(rng.randrange(1, 12))], "sizes": [2, 3, 4, 5][:T]})
     # function: integer tables on closed boxes with <= 12 cells
     for i in range(6000 if thorough else 150):
         T = rng.choice([1, 2, 2, 3])
@@ -53,6 +56,9 @@ def cases(chk):
                 col[lo][1] = 1 + rng.randrange(3)
             F.append(col); bounds.append([lo, hi])
         base = {"F": F, "bounds": bounds, "dens": [rng.choice([1, 5, 9]) for _ in range(T)], "sizes": [2, 3, 4][:T]}
+        if T >= 2 and i % 4 == 2:
+            # one callable object for all topologies with equal bounds (the law is still the product of the marginals)
+            base = {"F": [F[0]] * T, "bounds": [bounds[0]] * T, "dens": [base["dens"][0]] * T, "sizes": [2, 3, 4][:T], "shared_callable": True}
         cs.append(dict(base, kind="marginal"))
         if i % 3 == 0 and T <= 2:
             cs.append(dict(base, kind="marginal_sample1"))
